@@ -73,21 +73,35 @@ with evars (e : expr) : list var :=
   | EExists _ p => allvars p
   end.
 
-(* can the pattern yield the same solution twice? *)
-Fixpoint may_dup (p : alg) : bool :=
+(* can the pattern yield the same solution twice?  [df p]: certainly not, by a
+   syntactic argument: BGPs and duplicate-free VALUES tables are duplicate-free,
+   a join of duplicate-free operands is duplicate-free when every solution of
+   each operand binds the same variables ([un]: maybe = cert) - otherwise two
+   different pairs can merge into one solution *)
+Definition un (p : alg) : bool := subsetv (maybe p) (cert p).
+
+Fixpoint nodup_rows (rows : list sol) : bool :=
+  match rows with [] => true | r :: rs => negb (mem_sol r rs) && nodup_rows rs end.
+
+Fixpoint df (p : alg) : bool :=
   match p with
-  | BGP _ => false
-  | Join _ a b => may_dup a || may_dup b
-  | LeftJoin _ a b _ => may_dup a || may_dup b
-  | Filter _ _ _ q => may_dup q
-  | Union _ _ => true
-  | Minus a _ => may_dup a
-  | Extend _ q _ _ => may_dup q
-  | Values rows => negb (msol_eqb (dedup rows) rows)
-  | Project q vs => may_dup q || negb (subsetv (maybe q) vs)
-  | Graph _ q => may_dup q
-  | Distinct _ => false
+  | BGP _ => true
+  | Values rows => nodup_rows rows
+  | Join _ a b | LeftJoin _ a b _ => df a && df b && un a && un b
+  | Filter _ _ _ q => df q
+  | Minus a _ => df a
+  | Extend _ q _ _ => df q
+  | Union _ _ => false
+  | Project q vs => df q && subsetv (maybe q) vs
+  | Graph (Tm _) q => df q
+  | Graph (Vr _) q => df q && un q
+  | Distinct _ => true
   end.
+
+(* the right operand of a hash join must not repeat a solution, also after its
+   solutions have been merged with the incoming context (uniform domains) *)
+Definition hash_ok (pushed : list var) (b : alg) : bool :=
+  df b && (un b || negb (nonempty pushed)).
 
 (* do the solutions of the pattern drop bindings of the incoming context? *)
 Fixpoint forgets (p : alg) : bool :=
@@ -206,7 +220,7 @@ Fixpoint scan (names : list term) (inex : bool) (pushed : list var) (p : alg) {s
   | BGP _ => 0
   | Values _ => 0
   | Join lz a b =>
-      (if negb lz && negb inex && may_dup b then 3 else 0)
+      (if negb lz && negb inex && negb (hash_ok pushed b) then 3 else 0)
       |>| (if lz && forgets a && nonempty pushed then 4 else 0)
       |>| scan names inex pushed a
       |>| scan names inex (if lz then pushed ++ maybe a else pushed) b
